@@ -71,7 +71,8 @@ impl<R> BufReader<R> {
     pub fn with_capacity(cap: usize, reader: R) -> Self {
         Self {
             reader,
-            buf: Buffer::with_capacity(cap),
+            // (At least one byte: an empty buffer would make every refill look like EOF.)
+            buf: Buffer::with_capacity(cap.max(1)),
         }
     }
 }
